@@ -37,7 +37,7 @@ Theorem C10_pairing :
     o_r (nth j (s_objs st) dummy_obj) =
       if j <? f then filled udigit uspace (o_kind (nth j (s_objs st) dummy_obj)) (nth j script dflt)
       else unfilled (o_kind (nth j (s_objs st) dummy_obj)).
-Proof. intros. eapply cl_pairing; eassumption. Qed.
+Proof. intros. eapply clw_pairing; eassumption. Qed.
 Print Assumptions C10_pairing.
 
 (* What has been taken from the stream is exactly the f replies owed and read:
@@ -53,7 +53,7 @@ Theorem C10_no_overread :
   s_rbuf st ++ concat (s_chunks st) =
     wire (skipn (length (s_objs st) - length (s_queue st)) script) ++ extra /\
   Forall (fun c => c <> []) (s_chunks st) /\ s_dead st = false.
-Proof. intros. eapply cl_no_overread; eassumption. Qed.
+Proof. intros. eapply clw_no_overread; eassumption. Qed.
 Print Assumptions C10_no_overread.
 
 (* LMTP: after any call sequence, send_data / send_empty_data returns one new Reply
@@ -79,7 +79,7 @@ Theorem C10_lmtp_pairing :
   StronglySorted lt (map snd (s_rcpttos st)) /\
   Forall (fun p => from_call ops results p /\ snd p < n /\
                    o_cmd (nth (snd p) (s_objs st) dummy_obj) = bs "RCPT") (s_rcpttos st).
-Proof. intros. eapply cl_lmtp_pairing; eassumption. Qed.
+Proof. intros. eapply clw_lmtp_pairing; eassumption. Qed.
 Print Assumptions C10_lmtp_pairing.
 
 (* The parser fact the three theorems rest on (C17-style round trip): a reply the
@@ -109,5 +109,90 @@ Theorem C10_raise_is_noop :
   step udigit uspace o st = (st', RExn e) ->
   length (s_objs st') <= length script ->
   st' = st /\ (e = XEncode \/ e = XNotImpl).
-Proof. intros. eapply cl_raise_is_noop; eassumption. Qed.
+Proof. intros. eapply clw_raise_is_noop; eassumption. Qed.
 Print Assumptions C10_raise_is_noop.
+
+(* ---- undecodable replies (ISO-8859-1 text, truncated multi-byte sequences, lone
+   continuation bytes, overlongs): `script_ok` = every scripted reply is well-formed or
+   well-formed-but-not-UTF-8 (`bad_utf8`). ---- *)
+
+(* BadReply for such a reply is raised AFTER the reply has been consumed: whatever the
+   segmentation, the buffer continues exactly behind it. *)
+Theorem C10_bad_reply_consumed :
+  forall udigit uspace old r rest buf chunks,
+  bad_utf8 r = true ->
+  Forall (fun c => c <> []) chunks ->
+  buf ++ concat chunks = wire1 r ++ rest ->
+  exists buf' chunks',
+    recv_into udigit uspace old buf chunks = FBadReply buf' chunks' /\
+    buf' ++ concat chunks' = rest /\ Forall (fun c => c <> []) chunks'.
+Proof. intros. eapply cl_recv_into_bad; eassumption. Qed.
+Print Assumptions C10_bad_reply_consumed.
+
+(* Pairing when the conversation goes on after a BadReply: an undecodable reply costs the
+   call that was reading it a BadReply and leaves exactly its own slot (object j, script[j]
+   not well-formed) empty; every other object j < f holds exactly the server's j-th reply,
+   the objects handed out are increasing object numbers, the unread ones are the
+   reply_queue in order, the stream continues right behind reply f-1, EOF is never read.
+   (AttributeError can only come from LmtpClient.send_data, see the refuted theorem.) *)
+Theorem C10_pairing_with_bad_replies :
+  forall udigit uspace script extra lmtp exts0 ops chunks st results,
+  forallb script_ok script = true ->
+  Forall (fun c => c <> []) chunks ->
+  concat chunks = wire script ++ extra ->
+  run udigit uspace ops (init lmtp exts0 chunks) = (st, results) ->
+  length (s_objs st) <= length script ->
+  let n := length (s_objs st) in
+  let f := n - length (s_queue st) in
+  StronglySorted lt (flat_map result_ids results) /\
+  Forall (fun i => i < n) (flat_map result_ids results) /\
+  Forall result_ok_gen results /\
+  s_queue st = seq f (n - f) /\
+  (forall j, j < n ->
+    o_r (nth j (s_objs st) dummy_obj) =
+      if (j <? f) && wf_reply (nth j script dflt)
+      then filled udigit uspace (o_kind (nth j (s_objs st) dummy_obj)) (nth j script dflt)
+      else unfilled (o_kind (nth j (s_objs st) dummy_obj))) /\
+  s_rbuf st ++ concat (s_chunks st) = wire (skipn f script) ++ extra /\
+  Forall (fun c => c <> []) (s_chunks st) /\ s_dead st = false.
+Proof. intros. eapply cl_pairing_gen; eassumption. Qed.
+Print Assumptions C10_pairing_with_bad_replies.
+
+(* With such scripts a raising call is still a no-op when it raises before the wire; the two
+   exceptions raised after the wire (BadReply, AttributeError) need an undecodable reply. *)
+Theorem C10_raise_partial :
+  forall udigit uspace script extra lmtp exts0 ops chunks st results o st' e,
+  forallb script_ok script = true ->
+  Forall (fun c => c <> []) chunks ->
+  concat chunks = wire script ++ extra ->
+  run udigit uspace ops (init lmtp exts0 chunks) = (st, results) ->
+  step udigit uspace o st = (st', RExn e) ->
+  length (s_objs st') <= length script ->
+  (e = XEncode \/ e = XNotImpl) /\ st' = st \/
+  (e = XBadReply \/ e = XAttr) /\ (exists j, j < length script /\ wf_reply (nth j script dflt) = false).
+Proof. intros. eapply cl_raise_gen; eassumption. Qed.
+Print Assumptions C10_raise_partial.
+
+(* Known finding c10:lmtp-data-after-bad-rcpt-reply.  "A raising call leaves no reply slot
+   without its command" (C10_raise_is_noop) is FALSE once replies may be undecodable:
+   LmtpClient.send_data, looking at a pipelined RCPT whose reply was a BadReply (code None),
+   raises AttributeError after it has queued end-of-data slots for the recipients before it,
+   with nothing in the send buffer and the recipient list not cleared. *)
+Theorem C10_lmtp_unanswered_rcpt_refuted :
+  exists udigit uspace script exts0 ops chunks st results st',
+  forallb script_ok script = true /\
+  run udigit uspace ops (init true exts0 chunks) = (st, results) /\
+  concat chunks = wire script /\
+  step udigit uspace OSendEmpty st = (st', RExn XAttr) /\
+  length (s_objs st') <= length script /\
+  s_queue st' = [5] /\ o_cmd (nth 5 (s_objs st') dummy_obj) = bs "[SEND_DATA]" /\
+  s_sendbuf st' = [] /\ s_sent st' = s_sent st /\ s_rcpttos st' <> [].
+Proof.
+  exists ex_udigit, ex_uspace, ex_fscript, [], ex_fops, [wire ex_fscript].
+  pose proof cl_lmtp_unanswered_rcpt_witness as W.
+  destruct (run ex_udigit ex_uspace ex_fops (init true [] [wire ex_fscript])) as [st results] eqn:Er.
+  destruct (step ex_udigit ex_uspace OSendEmpty st) as [st' res] eqn:Es.
+  destruct W as (W0 & W1 & W2 & W3 & W4 & W5 & W6 & W7 & W8). subst res.
+  exists st, results, st'. repeat split; try assumption.
+Qed.
+Print Assumptions C10_lmtp_unanswered_rcpt_refuted.
